@@ -16,6 +16,20 @@ def summary(world):
             "mounts": [repr(m) for m in world["mounts"]], "entries": len(world["meta"]["entries"]), "nodes": len(world["nodes"])}
 
 
+def days_out_of_range(world):
+    """DAYS so large that `now - DAYS days` is no date any more: trash-empty then aborts at the first dated entry, as
+    documented (the model's `overflow`); any other OverflowError is nobody's business to raise"""
+    import datetime
+    o = world.get("opts", {})
+    if o.get("days") is None or not o.get("now"):
+        return False
+    try:
+        datetime.datetime(*o["now"]) - datetime.timedelta(days=o["days"])
+        return False
+    except OverflowError:
+        return True
+
+
 def eval_task(task):
     cfg = task["cfg"]
     if "world" in task:
@@ -23,7 +37,8 @@ def eval_task(task):
     else:
         rng = task_rng(task["pid"], task["seed"], task["i"])
         cmd = cfg["cmds"][task["i"] % len(cfg["cmds"])]
-        world = gen_trash_world(rng, cmd, cfg.get("profile", "mixed"))
+        rc = True if cfg.get("real_clock_every") and task["i"] % cfg["real_clock_every"] == 0 else None
+        world = gen_trash_world(rng, cmd, cfg.get("profile", "mixed"), real_clock=rc)
         if cfg.get("tweak"):
             world = cfg["tweak"](world, rng)
     r = readcheck.evaluate(world, driver(), want_states=cfg.get("states", False), oracles=cfg["oracles"],
@@ -39,7 +54,9 @@ def eval_task(task):
             out["bad"].append({"oracle": name, "verdict": v["verdict"],
                                "sig": {"oracle": name, "cmd": world["cmd"], "verdict": v["verdict"].split(" ")[0][:60],
                                        "restore_class": r["notes"].get("restore_class")}})
-    if r["exc"] and world["cmd"] != "empty":
+    if r["exc"] and not (world["cmd"] == "empty" and (
+            (r["exc"] == "OverflowError" and days_out_of_range(world)) or
+            (r["exc"] == "EOFError" and world.get("stdin") is None))):       # -i and end of input at the prompt (nothing is changed)
         out["tags"].append("uncaught:" + str(r["exc"]))
     if r["mismatch"] or out["bad"]:
         out["world"] = jsonable(world)
